@@ -47,7 +47,7 @@ void regInlFull() {
 }
 
 void registerInline() {
-#ifdef C11_FULL
+#if 0 // full matrix: see c11_x_*.cpp
   regInlFull<void>();
   regInlFull<uint32_t>();
   regInlFull<uint64_t>();
